@@ -604,6 +604,14 @@ class Analysis:
             p = ptr()
             if p:
                 return p
+        if fn in ("core::iter::ExactSizeIterator::len", "core::ops::Range::<Idx>::len") and args:
+            p = ptr()
+            if p and not p[2].t:
+                rv = self.read_cell(st, p[1], (), None)
+                rng = self.range_of(rv, None)
+                if rng is not None and rng[1] is not None:
+                    cs.no_effects = True
+                    return ("I", rng[1] - rng[0])
         if fn == "core::cmp::min":
             a, b = self.as_poly(args[0]), self.as_poly(args[1])
             if a is not None and b is not None:
